@@ -114,7 +114,9 @@ fn run_pty_srv(case: &PtySrvCase, slow: u32) -> CaseResult {
         let before = log.lock().unwrap().len();
         // while a write addressed to 0 arrives the application holds the lock of one unit for
         // 30 ms: the fan-out has to wait for it, not skip the unit
-        let holder = if f.unit == 0 && !app_handles.is_empty() {
+        // ... and for every third frame whatever its address: a request has to wait for the
+        // application, it is not answered differently because of it
+        let holder = if (f.unit == 0 || k % 3 == 1) && !app_handles.is_empty() {
             let h = app_handles[k % app_handles.len()].clone();
             let (tx, rx) = std::sync::mpsc::channel();
             let t = std::thread::spawn(move || {
@@ -124,7 +126,7 @@ fn run_pty_srv(case: &PtySrvCase, slow: u32) -> CaseResult {
                 drop(g);
             });
             let _ = rx.recv_timeout(Duration::from_millis(500));
-            ok.label("broadcast_while_application_holds_a_handler");
+            ok.label(if f.unit == 0 { "broadcast_while_application_holds_a_handler" } else { "request_while_application_holds_a_handler" });
             Some(t)
         } else {
             None
